@@ -216,6 +216,20 @@ def replay(path):
     d = json.load(open(path))
     quiet()
     if not d.get("ops"):
+        cfg = (d.get("detail") or {}).get("config")
+        if cfg:
+            import node_family
+            f = node_family.eval_factory(cfg)
+            say("factory:", json.dumps(cfg))
+            say("crash:", f["crash"], " activations:", f["nacts"])
+            for v in f["viol"]: say("  judge:", v)
+            mods = node_family.run_node_models([(h, ins) for h, ins, outs in f["nodes"]])
+            bad = 0
+            for (h, ins, outs), r in zip(f["nodes"], mods):
+                for k, (a, b) in enumerate(zip(outs, r)):
+                    if a != b:
+                        bad += 1; say(f"  node '{h}' activation {k}: {ins[k]}\n     impl : {a}\n     model: {b}"); break
+            return 1 if (f["viol"] or bad) else 0
         say(json.dumps(d, indent=1)); return 0
     h = d["header"]; ops = [tuple(o) for o in d["ops"]]
     il = run_impl(h, ops)
